@@ -197,7 +197,7 @@ func ruleP14Model(p *Prog, r *Report) {
 	mg := p.fn("klog", "Merge")
 	if r.anchorFn("P14-merge", mg, "klog.Merge") {
 		ok := false
-		eachInstr(mg, func(in ssa.Instruction) {
+		eachVInstr(mg, func(in ssa.Instruction) {
 			c, isC := in.(ssa.CallInstruction)
 			if !isC || !sameFn(staticCallee(c), put) {
 				return
@@ -489,7 +489,7 @@ func ruleP20Xor(p *Prog, r *Report) {
 	// P20-encode: returns the encoder's buffer after one Encode(&envelope)
 	nEnc := 0
 	var buf ssa.Value
-	eachInstr(f, func(in ssa.Instruction) {
+	eachVInstr(f, func(in ssa.Instruction) {
 		if c, ok := in.(ssa.CallInstruction); ok && staticCallee(c) != nil {
 			switch staticCallee(c).String() {
 			case "(*encoding/json.Encoder).Encode":
@@ -573,6 +573,10 @@ func ruleP20Fields(p *Prog, r *Report) {
 			return "elem"
 		}
 		if prm, ok := v.(*ssa.Parameter); ok {
+			// (named by its type: the parameter of the Range arm, of the OpenRange arm …)
+			if tn := typeNameOf(prm.Type()); tn != "" {
+				return "param:" + tn
+			}
 			return "param:" + prm.Name()
 		}
 		if c, idx := callOf(v); c != nil && idx == 0 {
@@ -649,14 +653,31 @@ func ruleP20Fields(p *Prog, r *Report) {
 		"TotalMins": "elem.Duration.InMinutes",
 		"Type":      `"range" | "duration" | "open_range"`,
 	}, p.pos(ev.Pos()))
-	check("OpenRangeView", fieldsOf(ev, "OpenRangeView"), map[string]string{
-		"Start":     "param:r.Start.ToString | param:o.Start.ToString",
-		"StartMins": "param:r.Start.MidnightOffset.InMinutes | param:o.Start.MidnightOffset.InMinutes",
-	}, p.pos(ev.Pos()))
-	check("RangeView", fieldsOf(ev, "RangeView"), map[string]string{
-		"End":     "param:r.End.ToString",
-		"EndMins": "param:r.End.MidnightOffset.InMinutes",
-	}, p.pos(ev.Pos()))
+	// start / end of the two range kinds: by field name, whichever view struct declares the field
+	// (RangeView may embed OpenRangeView or declare start and end itself)
+	rangeFields := map[string]map[string]bool{}
+	for _, typ := range []string{"OpenRangeView", "RangeView"} {
+		for k, d := range fieldsOf(ev, typ) {
+			if rangeFields[k] == nil {
+				rangeFields[k] = map[string]bool{}
+			}
+			for _, alt := range strings.Split(d, " | ") {
+				rangeFields[k][alt] = true
+			}
+		}
+	}
+	for _, w := range []struct {
+		field string
+		want  []string
+	}{
+		{"Start", []string{"param:OpenRange.Start.ToString", "param:Range.Start.ToString"}},
+		{"StartMins", []string{"param:OpenRange.Start.MidnightOffset.InMinutes", "param:Range.Start.MidnightOffset.InMinutes"}},
+		{"End", []string{"param:Range.End.ToString"}},
+		{"EndMins", []string{"param:Range.End.MidnightOffset.InMinutes"}},
+	} {
+		got := sortedKeys(rangeFields[w.field])
+		r.check(strings.Join(got, " | ") == strings.Join(w.want, " | "), rule, "RangeViews."+w.field, p.pos(ev.Pos()), w.field+" <- "+strings.Join(w.want, " | "), fmt.Sprintf("%s of a range / open range is computed as %s, expected %s", w.field, strings.Join(got, " | "), strings.Join(w.want, " | ")))
+	}
 	// type constant per arm
 	arms, _ := p.unboxArms(ev)
 	if arms == nil {
